@@ -210,7 +210,8 @@ PROPS = {
     },
     "C13": {
         "lean_modules": ["TemporalModel.Props.C13"],
-        "suites": ["c13"],
+        "suites": ["c13", "c15s"],
+        "needs_zones": True,
         "spec_ops": {"tz_inst": "tz_inst_spec", "tz_wall": "tz_wall_spec"},
         "level_text": "Proof, over arbitrary transition tables (Zone = initial offset + list of (instant, new offset)): "
                       "C13_possible_iff / C13_possible_sorted (the instants of a wall-clock reading are exactly the solutions of "
@@ -222,7 +223,9 @@ PROPS = {
                       "(earlier), for every gap from one second to almost two days), C13_exact_offset / C13_ignore_offset / "
                       "C13_prefer_reject (Z and `use` denote the exact instant, `ignore` the wall clock, `prefer`/`reject` match "
                       "exactly or to the minute). Tie: fixed offsets and random synthetic zones (0-6 transitions, changes from one "
-                      "second to more than a day, spacing from seconds to years) served by a provider written in the harness; "
+                      "second to more than a day, spacing from seconds to years) served by a provider written in the harness, plus a "
+                      "slice of forty real zones through FsTzdbProvider (local readings incl. the era before the first transition, "
+                      "offsets, zoned strings) against the model over the dumped zone tables; "
                       "instants and readings concentrated on transitions; getters, PlainDateTime/PlainDate -> ZonedDateTime (the date "
                       "alone and with an explicit time of day, midnight included, on the midnights next to every transition's local "
                       "images), "
